@@ -75,3 +75,16 @@ def bigint_product(tc):
         _link("clang++ -std=gnu++17 -g -O1 -DPRODUCT_MAIN -w -I%s -I%s %s/bigint_fuzz.cc %s -lgmp -lm -o %s" % (
             tc.srcdir, GMP_INC, HDIR, " ".join(objs), out))
     return ensure(tc, "bigint_product", b)
+
+
+CONT_MODS = ("bigint store util stdc opsys cport btree table dword xfloat debug memclim timer format strops ostream buffer "
+             "fluid list int priq bitv intset dnf").split()
+
+
+def containers(tc):
+    def b(tc, out):
+        objs = compile_objs(tc, os.path.join(tc.bin, "obj-asan-verif"), CONT_MODS, "clang",
+                            "-g -O1 -fsanitize=address -DSTO_USE_MALLOC -D" + build.GUARD)
+        _link("clang++ -std=gnu++17 -g -O1 -fsanitize=address -w -I%s %s/containers_rc.cc %s -lrapidcheck -lm -o %s" % (
+            tc.srcdir, HDIR, " ".join(objs), out))
+    return ensure(tc, "containers_rc", b)
